@@ -1,9 +1,194 @@
-(* C14 property theorems: ONLY statements closed by `exact`, each followed by Print Assumptions. *)
+(* C14 property theorems: ONLY statements closed by `exact`, each followed by Print Assumptions;
+   plus non-vacuity Examples.  Model: C14_Model.v (transcription of dune/common/std/*.hh), spec: C14_Spec.v. *)
 From Coq Require Import List ZArith Bool.
-From DuneV Require Import C14_Model C14_Spec C14_Proofs.
+From DuneV Require Import C14_Model C14_Spec C14_Proofs C14_Proofs_Access.
 Import ListNotations.
 Local Open Scope Z_scope.
 
-Example C14_example_right : c14_map_right [2;3;4] [1;2;3] = 23.
-Proof. exact c14_example_right. Qed.
-Print Assumptions C14_example_right.
+(* --- layout_right / layout_left: the Horner loops compute the row-/column-major formula (all ranks) *)
+Theorem C14_right_formula : forall E idx, length idx = length E ->
+  c14_map_right E idx = c14_spec_right E idx.
+Proof. exact c14_right_formula. Qed.
+Print Assumptions C14_right_formula.
+
+Theorem C14_left_formula : forall E idx, length idx = length E ->
+  c14_map_left E idx = c14_spec_left E idx.
+Proof. exact c14_left_formula. Qed.
+Print Assumptions C14_left_formula.
+
+(* --- every valid tuple maps into [0, required_span_size) : left, right, stride (strides >= 0) *)
+Theorem C14_in_range : forall m idx, c14_wf m -> c14_valid idx (c14_ext m) ->
+  0 <= c14_map m idx < c14_required_span_size m.
+Proof. exact c14_in_range. Qed.
+Print Assumptions C14_in_range.
+
+(* --- distinct valid tuples map to distinct offsets: left, right (always), stride under the chain condition *)
+Theorem C14_injective : forall m i j, c14_unique m -> c14_valid i (c14_ext m) -> c14_valid j (c14_ext m) ->
+  c14_map m i = c14_map m j -> i = j.
+Proof. exact c14_injective. Qed.
+Print Assumptions C14_injective.
+
+(* --- left and right fill [0, product of extents) without gaps *)
+Theorem C14_exhaustive : forall m, c14_lay m <> C14_Stride -> c14_nonneg (c14_ext m) ->
+  forall k, 0 <= k < c14_required_span_size m ->
+  exists idx, c14_valid idx (c14_ext m) /\ c14_map m idx = k.
+Proof. exact c14_exhaustive. Qed.
+Print Assumptions C14_exhaustive.
+
+(* --- the explicit inverses (digit decompositions) *)
+Theorem C14_unrank_right : forall E, c14_nonneg E -> forall k, 0 <= k < c14_prod E ->
+  c14_valid (c14_unrank_right E k) E /\ c14_spec_right E (c14_unrank_right E k) = k.
+Proof. exact c14_unrank_right_ok. Qed.
+Print Assumptions C14_unrank_right.
+
+Theorem C14_unrank_left : forall E, c14_nonneg E -> forall k, 0 <= k < c14_prod E ->
+  c14_valid (c14_unrank_left E k) E /\ c14_spec_left E (c14_unrank_left E k) = k.
+Proof. exact c14_unrank_left_ok. Qed.
+Print Assumptions C14_unrank_left.
+
+(* --- a unit step in dimension r changes the offset by stride(r) *)
+Theorem C14_stride_step : forall m idx r, c14_wf m -> length idx = length (c14_ext m) -> (r < length (c14_ext m))%nat ->
+  c14_map m (c14_bump idx r) = c14_map m idx + c14_stride m r.
+Proof. exact c14_step. Qed.
+Print Assumptions C14_stride_step.
+
+(* --- stride(r) of left/right is the product of the extents to the left/right *)
+Theorem C14_stride_right_value : forall E r, (r < length E)%nat ->
+  c14_stride_right E r = nth r (c14_spec_strides_right E) 0.
+Proof. exact c14_stride_right_nth. Qed.
+Print Assumptions C14_stride_right_value.
+
+Theorem C14_stride_left_value : forall E r, (r < length E)%nat ->
+  c14_stride_left E r = nth r (c14_spec_strides_left E) 0.
+Proof. exact c14_stride_left_nth. Qed.
+Print Assumptions C14_stride_left_value.
+
+(* --- an extent 0: span size 0 and no valid tuple *)
+Theorem C14_zero_extent : forall m, In 0 (c14_ext m) ->
+  c14_required_span_size m = 0 /\ forall idx, ~ c14_valid idx (c14_ext m).
+Proof. exact c14_zero_extent. Qed.
+Print Assumptions C14_zero_extent.
+
+(* --- machine integers: every value the Horner loops compute lies in [0, span size) *)
+Theorem C14_horner_no_overflow_right : forall idx E, c14_valid idx E ->
+  Forall (fun x => 0 <= x < c14_product E) (c14_map_right_trace E idx).
+Proof. exact c14_right_trace_bound. Qed.
+Print Assumptions C14_horner_no_overflow_right.
+
+Theorem C14_horner_no_overflow_left : forall idx E, c14_valid idx E ->
+  Forall (fun x => 0 <= x < c14_product E) (c14_map_left_trace E idx).
+Proof. exact c14_left_trace_bound. Qed.
+Print Assumptions C14_horner_no_overflow_left.
+
+(* --- extents: both constructor forms give the intended extents for every static/dynamic pattern;
+       converting between compatible extents types preserves all extents *)
+Theorem C14_extents_all : forall p e, c14_spec_compatible p e ->
+  c14_extents_list p (c14_extents_ctor p e) = e.
+Proof. exact c14_extents_ctor_all. Qed.
+Print Assumptions C14_extents_all.
+
+Theorem C14_extents_dyn : forall p d, length d = c14_rank_dynamic p ->
+  c14_extents_list p (c14_extents_ctor p d) = c14_spec_fill p d.
+Proof. exact c14_extents_ctor_dyn. Qed.
+Print Assumptions C14_extents_dyn.
+
+Theorem C14_extents_convert : forall p' p dyn, c14_spec_compatible p' (c14_extents_list p dyn) ->
+  c14_extents_list p' (c14_extents_convert p' p dyn) = c14_extents_list p dyn.
+Proof. exact c14_extents_convert_ok. Qed.
+Print Assumptions C14_extents_convert.
+
+(* --- conversions between layouts (left<->right for rank <= 1, stride->left/right when the asserted stride
+       equations hold, any->stride via stride(r)) preserve the offset of every tuple *)
+Theorem C14_convert : forall l m m' idx, c14_wf m -> length idx = length (c14_ext m) ->
+  c14_relayout l m = Some m' -> c14_map m' idx = c14_map m idx /\ c14_ext m' = c14_ext m.
+Proof. exact c14_relayout_ok. Qed.
+Print Assumptions C14_convert.
+
+(* --- the nested loops enumerate exactly the valid tuples *)
+Theorem C14_tuples : forall E t, In t (c14_tuples E) <-> c14_valid t E.
+Proof. exact c14_in_tuples. Qed.
+Print Assumptions C14_tuples.
+
+(* --- mdspan: a valid tuple accesses store[base + map idx], inside the storage *)
+Theorem C14_access_mdspan : forall (T : Type) (store : list T) base m idx, c14_wf m -> c14_valid idx (c14_ext m) ->
+  0 <= base -> base + c14_required_span_size m <= Z.of_nat (length store) ->
+  c14_mdspan_get store base m idx = c14_get store (base + c14_map m idx) /\
+  base <= base + c14_map m idx < base + c14_required_span_size m /\
+  exists v, c14_mdspan_get store base m idx = Some v.
+Proof. exact (@c14_mdspan_access). Qed.
+Print Assumptions C14_access_mdspan.
+
+(* --- a write through the view changes exactly the designated element *)
+Theorem C14_access_write : forall (T : Type) (store : list T) base m idx v, c14_wf m -> c14_unique m ->
+  c14_valid idx (c14_ext m) -> 0 <= base -> base + c14_required_span_size m <= Z.of_nat (length store) ->
+  exists store', c14_mdspan_set store base m idx v = Some store' /\ length store' = length store /\
+    c14_mdspan_get store' base m idx = Some v /\
+    (forall j, c14_valid j (c14_ext m) -> j <> idx -> c14_mdspan_get store' base m j = c14_mdspan_get store base m j) /\
+    (forall k, k <> base + c14_map m idx -> c14_get store' k = c14_get store k).
+Proof. exact (@c14_mdspan_write_read). Qed.
+Print Assumptions C14_access_write.
+
+(* --- mdarray constructors size the container by required_span_size; all elements initialised and reachable *)
+Theorem C14_mdarray_sized : forall (T : Type) m (v : T), 0 <= c14_required_span_size m ->
+  Z.of_nat (length (c14_mdarray_new m v)) = c14_required_span_size m.
+Proof. exact (@c14_mdarray_sized). Qed.
+Print Assumptions C14_mdarray_sized.
+
+Theorem C14_mdarray_new_get : forall (T : Type) m (v : T) idx, c14_wf m -> c14_valid idx (c14_ext m) ->
+  c14_mdarray_get (c14_mdarray_new m v) m idx = Some v.
+Proof. exact (@c14_mdarray_new_get). Qed.
+Print Assumptions C14_mdarray_new_get.
+
+(* --- mdarray(const mdspan&): new[idx] = old[idx] for all valid idx, container of exactly the index-space size *)
+Theorem C14_mdarray_from_mdspan : forall (T : Type) (dflt : T) l store base msrc,
+  l <> C14_Stride -> c14_wf msrc -> c14_nonneg (c14_ext msrc) ->
+  (forall t, c14_valid t (c14_ext msrc) -> exists v, c14_mdspan_get store base msrc t = Some v) ->
+  forall mdst, c14_relayout l msrc = Some mdst ->
+  exists cont, c14_mdarray_from_mdspan dflt l store base msrc = Some (cont, mdst) /\
+    Z.of_nat (length cont) = c14_required_span_size mdst /\
+    forall t, c14_valid t (c14_ext msrc) -> c14_mdarray_get cont mdst t = c14_mdspan_get store base msrc t.
+Proof. exact c14_mdarray_from_mdspan_ok. Qed.
+Print Assumptions C14_mdarray_from_mdspan.
+
+(* --- span: sub-views refer to the same elements; at() rejects exactly i >= size *)
+Theorem C14_span_subspan : forall s o c s', c14_span_subspan s o c = Some s' -> 0 <= o ->
+  (forall i, c14_span_index s' i = c14_span_index s (o + i)) /\
+  (forall i, 0 <= i < c14_sp_len s' -> 0 <= o + i < c14_sp_len s) /\
+  c14_sp_len s' = match c with None => c14_sp_len s - o | Some n => n end.
+Proof. exact c14_span_subspan_ok. Qed.
+Print Assumptions C14_span_subspan.
+
+Theorem C14_span_first : forall s c s', c14_span_first s c = Some s' ->
+  (forall i, c14_span_index s' i = c14_span_index s i) /\ c14_sp_len s' = c /\ c <= c14_sp_len s.
+Proof. exact c14_span_first_ok. Qed.
+Print Assumptions C14_span_first.
+
+Theorem C14_span_last : forall s c s', c14_span_last s c = Some s' ->
+  (forall i, c14_span_index s' i = c14_span_index s (c14_sp_len s - c + i)) /\ c14_sp_len s' = c /\ c <= c14_sp_len s.
+Proof. exact c14_span_last_ok. Qed.
+Print Assumptions C14_span_last.
+
+Theorem C14_span_at : forall s i,
+  (c14_sp_len s <= i -> c14_span_at s i = None) /\
+  (i < c14_sp_len s -> c14_span_at s i = Some (c14_span_index s i)).
+Proof. exact c14_span_at_ok. Qed.
+Print Assumptions C14_span_at.
+
+(* Not proved (would be C14_stride_exhaustive_iff): for a unique strided mapping, is_exhaustive() = true iff the
+   offsets fill [0, required_span_size).  The "if" direction needs a pigeonhole argument over the enumeration;
+   it is checked by the oracle of the correspondence on every strided case instead. *)
+
+(* --- non-vacuity *)
+Example C14_ex_valid : c14_valid [1; 2; 3] [2; 3; 4] /\ c14_map_right [2; 3; 4] [1; 2; 3] = 23 /\ c14_map_left [2; 3; 4] [1; 2; 3] = 23.
+Proof. exact c14_ex_valid. Qed.
+Example C14_ex_unique_padded :
+  c14_unique (C14_Mapping C14_Stride [2; 3] [10; 2]) /\ c14_wf (C14_Mapping C14_Stride [2; 3] [10; 2]) /\
+  c14_required_span_size (C14_Mapping C14_Stride [2; 3] [10; 2]) = 15.
+Proof. exact c14_ex_unique_padded. Qed.
+Example C14_ex_extents : c14_spec_compatible [Some 2; None; Some 3] [2; 4; 3] /\
+  c14_extents_list [Some 2; None; Some 3] (c14_extents_ctor [Some 2; None; Some 3] [4]) = [2; 4; 3].
+Proof. exact c14_ex_extents. Qed.
+Example C14_ex_from_mdspan :
+  c14_mdarray_from_mdspan 0 C14_Left [10; 11; 12; 13; 14; 15; 16] 1 (C14_Mapping C14_Left [2; 3] [])
+  = Some ([11; 12; 13; 14; 15; 16], C14_Mapping C14_Left [2; 3] []).
+Proof. exact c14_ex_from_mdspan. Qed.
